@@ -399,8 +399,8 @@ def check_conde_builder(ctx, lib, RB):
             if ok:
                 v = st[0][2][0]
                 conj = st[0][2][1]
-                while conj[0] == "field" and conj[2] == "goal":
-                    conj = conj[1]
+                while (conj[0] == "field" and conj[2] == "goal") or conj[0] == "letv":
+                    conj = conj[1] if conj[0] == "field" else conj[3]
                 ok = conj[0] == "call" and (suffix_match(conj[1], "InferredConj::from_array") or suffix_match(conj[1], "Conj::from_array")) and conj[2][0] == ("item", f[1])
                 # result: Conde over exactly that vector
                 nodes = [s for s in sym.subterms(res) if s[0] == "struct" and suffix_match(s[1], "conde::Conde")]
